@@ -89,7 +89,7 @@ def extract_tables():
         for side, rel, tbl in (("sync", srel, st), ("async", arel, at)):
             mod = _src(rel)
             funcs = [n for n in mod.body if isinstance(n, (ast.FunctionDef, ast.AsyncFunctionDef)) and is_public(n.name)]
-            tbl.append((f"module:{key}", rel, [], [(f.name, f.name, params_of(f)) for f in funcs]))
+            tbl.append((f"module:{key}", rel, [], [(f.name, f.name, params_of(f), isinstance(f, ast.AsyncFunctionDef)) for f in funcs]))
             cls_nodes = {n.name: n for n in mod.body if isinstance(n, ast.ClassDef)}
             for sname, aname in classes:
                 real = sname if side == "sync" else aname
@@ -101,12 +101,12 @@ def extract_tables():
                 meths = []
                 for n in c.body:
                     if isinstance(n, (ast.FunctionDef, ast.AsyncFunctionDef)) and is_public(n.name):
-                        meths.append((DUNDER_MAP.get(n.name, n.name), n.name, params_of(n)))
+                        meths.append((DUNDER_MAP.get(n.name, n.name), n.name, params_of(n), isinstance(n, ast.AsyncFunctionDef)))
                 tbl.append((f"{key}:{sname}", real, [_base_name(b) for b in c.bases], meths))
             # any further public class of the sync module must have a same-named twin
             for n in mod.body:
                 if isinstance(n, ast.ClassDef) and is_public(n.name) and n.name not in [x[0 if side == "sync" else 1] for x in classes]:
-                    meths = [(DUNDER_MAP.get(m.name, m.name), m.name, params_of(m)) for m in n.body
+                    meths = [(DUNDER_MAP.get(m.name, m.name), m.name, params_of(m), isinstance(m, ast.AsyncFunctionDef)) for m in n.body
                              if isinstance(m, (ast.FunctionDef, ast.AsyncFunctionDef)) and is_public(m.name)]
                     tbl.append((f"{key}:{_map_name(n.name)}", n.name, [_base_name(b) for b in n.bases], meths))
     return st, at
@@ -155,6 +155,15 @@ class _Norm(ast.NodeTransformer):
                 and v.func.value.attr == "logger":
             return None                                         # <x>.logger.<level>(...) : log text only
         return self.generic_visit(n)
+
+    def visit_ImportFrom(self, n):
+        return ast.ImportFrom(module=n.module, names=sorted((ast.alias(name=_map_name(a.name), asname=a.asname) for a in n.names), key=lambda a: a.name),
+                              level=n.level)
+
+    def visit_ClassDef(self, n):
+        n = self.generic_visit(n)
+        n.name = _map_name(n.name)
+        return n
 
     def visit_Name(self, n):
         return ast.Name(id=_map_name(n.id), ctx=n.ctx)
@@ -238,7 +247,150 @@ def twin_diffs():
                 node = fs.get(k) or fa.get(k)
                 h = hashlib.blake2b(norm_dump(node).encode(), digest_size=8).hexdigest()
                 out.append((key, k[0], k[1], "sync-only" if k in fs else "async-only", h))
+    return out + shell_diffs()
+
+
+def _shell(mod, classes, side):
+    """everything OUTSIDE function bodies of one twin file as a pseudo function: imports (sorted), module / class level statements,
+    class headers, and for every def its decorators (bodies and signatures are compared per function)"""
+    mod = copy.deepcopy(mod)
+    cmap = {a: s for s, a in classes}
+
+    def strip(body):
+        out = []
+        for n in body:
+            if isinstance(n, ast.Expr) and isinstance(n.value, ast.Constant) and isinstance(n.value.value, str):
+                continue                                    # docstrings
+            if isinstance(n, (ast.FunctionDef, ast.AsyncFunctionDef)):
+                out.append(ast.Expr(ast.Call(ast.Name("DEF", ast.Load()), [ast.Constant(DUNDER_MAP.get(n.name, n.name))] + list(n.decorator_list), [])))
+            elif isinstance(n, ast.ClassDef):
+                n.body = strip(n.body) or [ast.Pass()]
+                out.append(n)
+            else:
+                out.append(n)
+        return out
+    mod.body = strip(mod.body)
+    n = ast.fix_missing_locations(_Norm().visit(mod))
+    lines = [l.strip() for l in ast.unparse(n).splitlines() if l.strip()]
+    imports = sorted(l for l in lines if l.startswith(("import ", "from ")))
+    return imports + [l for l in lines if not l.startswith(("import ", "from "))]
+
+
+def twin_pairs_compared():
+    """number of twin function pairs present on both sides (non-vacuity of the pin)"""
+    n = 0
+    for key, srel, arel, classes in PAIRS:
+        fs, fa = _functions(srel, classes, "sync"), _functions(arel, classes, "async")
+        n += len(set(fs) & set(fa)) + 1                      # + the module shell
+    return n
+
+
+def shell_diffs():
+    out = []
+    for key, srel, arel, classes in PAIRS:
+        ls, la = _shell(_src(srel), classes, "sync"), _shell(_src(arel), classes, "async")
+        if ls != la:
+            h = hashlib.blake2b(json.dumps(hunks(ls, la)).encode(), digest_size=8).hexdigest()
+            out.append((key, "module", "<outside-functions>", "body", h))
     return out
+
+
+def shell_sources(key):
+    for k, srel, arel, classes in PAIRS:
+        if k == key:
+            return "\n".join(_shell(_src(srel), classes, "sync")), "\n".join(_shell(_src(arel), classes, "async"))
+    return None, None
+
+
+# ---------------------------------------------------------------- await discipline (what the normaliser of the pin erases)
+EXTERNAL_ASYNC = {"asyncio.sleep", "asyncio.wait_for", "self.stdout.read"}          # coroutine functions outside the twin files
+EXTERNAL_DEFERRED = {"asyncio.open_connection", "callback.run", "matched_callback.run"}                  # coroutine created here, awaited through a name / wait_for
+HOOKS = {"self.on_open", "self.on_close"}                                            # user hooks of the asyncio drivers are coroutine functions
+ASYNC_CMS = {"self._channel_lock()", "self.channel_lock"}                            # the only async context managers
+
+
+def _async_defs():
+    """per family the names defined with `async def` in the async twin files"""
+    fam = {"driver": set(), "channel": set(), "transport": set()}
+    for key, _srel, arel, _classes in PAIRS:
+        f = "channel" if key == "channel" else "transport" if key.startswith("transport") else "driver"
+        for n in ast.walk(_src(arel)):
+            if isinstance(n, ast.AsyncFunctionDef) and not any(ast.unparse(d) == "asynccontextmanager" for d in n.decorator_list):
+                fam[f].add(n.name)                          # (an @asynccontextmanager generator is called plainly and entered with `async with`)
+    return fam
+
+
+def await_mismatches():
+    """[(pair, function, expression, kind)]: a call to a coroutine function that is not awaited (kind unawaited), an `await` of something that
+    is not one (await-of-plain), a plain `with` on an async context manager / `async with` on anything else (with-kind), `await` in a sync file"""
+    fam = _async_defs()
+    if not (fam["driver"] and fam["channel"] and fam["transport"]):
+        raise TranslateError("await discipline: no async defs found in a twin family")
+    out = []
+
+    def is_async_callee(txt, family):
+        if txt in EXTERNAL_ASYNC or txt in HOOKS:
+            return True
+        if txt in EXTERNAL_DEFERRED:
+            return None
+        recv, _, meth = txt.rpartition(".")
+        if recv in ("self", "super()", "conn"):
+            return meth in fam[family]
+        if recv in ("self.channel", "conn.channel"):
+            return meth in fam["channel"]
+        if recv in ("self.transport", "conn.transport"):
+            return meth in fam["transport"]
+        if recv == "" and family == "driver":
+            return txt in fam["driver"] and False            # bare names: module level hooks are never called directly
+        return False
+
+    for key, srel, arel, _classes in PAIRS:
+        family = "channel" if key == "channel" else "transport" if key.startswith("transport") else "driver"
+        for n in ast.walk(_src(srel)):
+            if isinstance(n, (ast.Await, ast.AsyncWith, ast.AsyncFor, ast.AsyncFunctionDef)):
+                out.append((key, "<sync file>", type(n).__name__, "async-construct-in-sync-file"))
+        mod = _src(arel)
+        for fn in ast.walk(mod):
+            if not isinstance(fn, (ast.FunctionDef, ast.AsyncFunctionDef)):
+                continue
+            awaited, waitfor_args, deferred_names = set(), set(), set()
+            for n in ast.walk(fn):
+                if isinstance(n, ast.Await):
+                    awaited.add(id(n.value))
+                if isinstance(n, ast.Call) and ast.unparse(n.func) == "asyncio.wait_for" and n.args:
+                    waitfor_args.add(id(n.args[0]))
+                if isinstance(n, ast.Assign) and isinstance(n.value, ast.Call) and ast.unparse(n.value.func) in EXTERNAL_DEFERRED:
+                    deferred_names.update(t.id for t in n.targets if isinstance(t, ast.Name))
+            for n in ast.walk(fn):
+                if isinstance(n, ast.Call):
+                    txt = ast.unparse(n.func)
+                    a = is_async_callee(txt, family)
+                    if a is True and id(n) not in awaited and id(n) not in waitfor_args:
+                        out.append((key, fn.name, txt, "unawaited"))
+                    if a is False and id(n) in awaited:
+                        out.append((key, fn.name, txt, "await-of-plain"))
+                if isinstance(n, ast.Await) and not isinstance(n.value, ast.Call):
+                    if not (isinstance(n.value, ast.Name) and n.value.id in deferred_names):
+                        out.append((key, fn.name, ast.unparse(n.value), "await-of-plain"))
+                if isinstance(n, ast.With):
+                    for it in n.items:
+                        if ast.unparse(it.context_expr) in ASYNC_CMS:
+                            out.append((key, fn.name, ast.unparse(it.context_expr), "with-kind"))
+                if isinstance(n, ast.AsyncWith):
+                    for it in n.items:
+                        if ast.unparse(it.context_expr) not in ASYNC_CMS:
+                            out.append((key, fn.name, ast.unparse(it.context_expr), "with-kind"))
+                if isinstance(n, ast.AsyncFor):
+                    out.append((key, fn.name, ast.unparse(n.iter), "async-for"))
+            if isinstance(fn, ast.FunctionDef) and any(isinstance(x, (ast.Await, ast.AsyncWith)) for x in ast.walk(fn)
+                                                       if not isinstance(x, ast.AsyncFunctionDef)):
+                pass                                          # a syntax error in Python; nothing to report
+    return sorted(set(out))
+
+
+def awaits_seen():
+    """number of await expressions in the async twin files (non-vacuity)"""
+    return sum(1 for _k, _s, arel, _c in PAIRS for n in ast.walk(_src(arel)) if isinstance(n, ast.Await))
 
 
 def twin_sources(key, owner, fname):
@@ -269,11 +421,34 @@ def open_parity_entries():
     return out
 
 
+def finding_status():
+    st = {}
+    for f in (VERIF / "findings" / "C06.json", VERIF / "known_findings.json"):     # the merged file wins
+        if f.exists():
+            data = json.load(open(f))
+            for x in (data["findings"] if isinstance(data, dict) else data):
+                if x.get("property") == "C06":
+                    st[x["id"]] = x.get("status")
+    return st
+
+
 def audited():
+    """the audited set; an entry that records the text of a DEFECT (`finding` field) counts only while that finding is open —
+    once it is fixed, going back to the defective text is un-audited again"""
     f = VERIF / "corpus" / "C06" / "audited_twin_diffs.json"
     if not f.exists():
         return []
-    return [(x["pair"], x["owner"], x["function"], x["kind"], x["hash"]) for x in json.load(open(f))]
+    st = finding_status()
+    return [(x["pair"], x["owner"], x["function"], x["kind"], x["hash"]) for x in json.load(open(f))
+            if not x.get("finding") or st.get(x["finding"]) == "open"]
+
+
+def plain_async_methods():
+    """audited list of public methods of the ASYNC classes that are plain functions (everything else must be `async def`)"""
+    f = VERIF / "corpus" / "C06" / "audited_plain_async_methods.json"
+    if not f.exists():
+        raise TranslateError("corpus/C06/audited_plain_async_methods.json missing")
+    return [(x["class"], x["method"]) for x in json.load(open(f))]
 
 
 def auth_patterns():
@@ -308,9 +483,9 @@ def render_table(name, tbl):
     rows = []
     for key, real, bases, meths in tbl:
         ms = []
-        for mname, _real, ps in meths:
+        for mname, _real, ps, is_async in meths:
             pl = ", ".join(f"⟨{q(n)}, {KIND[k]}, {'none' if d is None else 'some ' + q(d)}⟩" for n, k, d in ps)
-            ms.append(f"    ⟨{q(mname)}, [{pl}]⟩")
+            ms.append(f"    ⟨{q(mname)}, [{pl}], {'true' if is_async else 'false'}⟩")
         rows.append(f"  ⟨{q(key)}, {q(real)}, [{', '.join(q(b) for b in bases)}], [\n" + ",\n".join(ms) + "]⟩")
     return s + ",\n".join(rows) + "]\n"
 
@@ -332,6 +507,15 @@ def generate():
     body += "/-- twin functions whose normalised bodies differ: (pair, owner, function, kind, hash) -/\n"
     body += render_tuples("twinDiffs", "String × String × String × String × String", twin_diffs()) + "\n"
     body += render_tuples("auditedTwinDiffs", "String × String × String × String × String", audited()) + "\n"
+    npairs = twin_pairs_compared()
+    if npairs < 70:
+        raise TranslateError(f"twin comparison saw only {npairs} function pairs")
+    body += f"/-- twin function pairs (present on both sides, + one module shell per file pair) that were compared -/\ndef twinPairsCompared : Nat := {npairs}\n\n"
+    body += "/-- violations of the await discipline in the async twin files: (pair, function, expression, kind) -/\n"
+    body += render_tuples("awaitMismatches", "String × String × String × String", await_mismatches()) + "\n"
+    body += f"def awaitsSeen : Nat := {awaits_seen()}\n\n"
+    body += "/-- audited: public methods of the ASYNC classes that are plain functions (class key, method) -/\n"
+    body += render_tuples("plainAsyncMethods", "String × String", plain_async_methods()) + "\n"
     pats = auth_patterns()
     body += f"def telnetLoginPattern : String := {q(pats['auth_telnet_login_pattern'])}\n"
     body += f"def passwordPattern : String := {q(pats['auth_password_pattern'])}\n"
